@@ -464,9 +464,12 @@ func (gen *Generator) GenerateCond(args []Sexp) error {
 }
 
 func (gen *Generator) GenerateQuote(args []Sexp) error {
-	for _, expr := range args {
-		gen.AddInstruction(PushInstr{expr})
+	// exactly one value goes on the data stack: (quote) would leave none
+	// and (quote a b) one too many.
+	if len(args) != 1 {
+		return fmt.Errorf("quote takes exactly one argument, got %d", len(args))
 	}
+	gen.AddInstruction(PushInstr{args[0]})
 	return nil
 }
 
@@ -1646,6 +1649,11 @@ func (gen *Generator) GenerateReturn(xs []Sexp) error {
 
 	if n > 1 {
 		gen.AddInstruction(PushInstr{SexpMarker})
+		// the values are collected into an array afterwards: none of them
+		// is in tail position.
+		oldtail := gen.Tail
+		gen.Tail = false
+		defer func() { gen.Tail = oldtail }()
 	}
 	for i := range xs {
 		Q("return calling Generate on xs[i=%v]=%v", i, xs[i].SexpString(nil))
